@@ -396,6 +396,50 @@ fn c3f_fused_reader() {
 	core::mem::forget(f);
 }
 
+/// C3f, fault variant: the source starts failing at a symbolic offset (and keeps failing). The fused reader passes
+/// the error on and is NOT fused by it: a failing source never turns into a clean end of input on a later read.
+#[kani::proof]
+#[kani::unwind(6)]
+fn c3f_fused_reader_fault() {
+	let buf: [u8; N] = kani::any();
+	let len: usize = kani::any();
+	kani::assume(len <= N);
+	let data = &buf[..len];
+	let fail_at: usize = kani::any();
+	kani::assume(fail_at <= len);
+	let mut src = Src::new(data);
+	src.fail_at = fail_at;
+	let mut f = FusedReader::new(src);
+	let mut seen = 0usize;
+	let mut failed = false;
+	let mut step = 0;
+	while step < 4 {
+		let want: usize = kani::any();
+		kani::assume(want >= 1 && want <= 2);
+		let mut tmp = [0u8; 2];
+		match f.read(&mut tmp[..want]) {
+			Ok(got) => {
+				assert!(!failed, "C3f: after the source failed, no later read reports success or a clean end of input");
+				assert!(got > 0 && seen + got <= fail_at, "C3f: only bytes the source delivered before failing, and no clean end of input in front of the fault");
+				let mut j = 0;
+				while j < got {
+					assert!(tmp[j] == data[seen + j], "C3f: bytes of the inner reader, in order");
+					j += 1;
+				}
+				seen += got;
+			}
+			Err(e) => {
+				core::mem::forget(e);
+				assert!(seen == fail_at, "C3f: an error only once the source failed");
+				failed = true;
+			}
+		}
+		step += 1;
+	}
+	kani::cover!(failed && seen == 2, "C3f fault after two bytes");
+	core::mem::forget(f);
+}
+
 // ---------------------------------------------------------------------------------------
 // C3: the Handle layer over Box<dyn Read> (needs -Z restrict-vtable)
 // ---------------------------------------------------------------------------------------
